@@ -142,3 +142,13 @@ def build_and_generate(api, scratch, hashseed="0"):
 
 def case_scratch(prefix):
     return os.environ.get("VP_CASE_SCRATCH") or new_scratch(prefix)
+
+
+def gen_failed_result(g, api=None, extra_mech=None):
+    """A well-formed request the plugin could not generate is a violation of the
+    property whose generator produced the shape (nobody else samples it)."""
+    mech = {"exc_type": g.exc_type, "exc_msg": (g.exc_msg or "")[:120]}
+    mech.update(extra_mech or {})
+    return {"verdict": "violated", "evaluations": 1, "counters": {"generation_failed": 1},
+            "violations": [{"clause": "generation-fails", "detail": g.failure(), "mech": mech}],
+            "sample": {"tags": sorted(api.tags)[:20] if api is not None else []}}
